@@ -27,7 +27,7 @@ func schedCase(rng *rand.Rand, w *Writer, suite string, kind string, canonical i
 	world.watchApp(a)
 	d := &simDev{eui: eui64(genEUI(rng)), appeui: a, appkey: genKey(rng), relaxed: false}
 	state := model.PersonalizedDevice
-	if kind == "join-copies" {
+	if kind == "join-copies" || kind == "forged-join" {
 		d.otaa = true
 		d.nwk, d.app = make([]byte, 16), make([]byte, 16)
 		state = model.OverTheAirDevice
@@ -62,7 +62,7 @@ func schedCase(rng *rand.Rand, w *Writer, suite string, kind string, canonical i
 	pop := fmt.Sprintf("%x:%x:%s:%s:%s:%x:%d:%d:%d:%d", uint64(d.eui.ToInt64()), d.addr, hx(d.appkey), hx(d.nwk), hx(d.app),
 		uint64(d.appeui.ToInt64()), d.fup0, d.fdn0, b01(d.relaxed), int(state))
 	// queued downstream data, so that answers carry a payload
-	if (suite == "schedC07" || suite == "schedC03") && kind != "join-copies" && canonical != 3 && rng.Intn(4) == 0 {
+	if (suite == "schedC07" || suite == "schedC03") && kind != "join-copies" && kind != "forged-join" && canonical != 3 && rng.Intn(4) == 0 {
 		// the oldest queued message cannot be marshalled (a port the frame format has no room for; the service refuses such
 		// ports, the table does not): its encoder must not use up - or hand back - a frame counter while another works
 		h.submit(d, uint8([]int{0, 224, 255}[rng.Intn(3)]), rng.Intn(2) == 0, randBytes(rng, 1+rng.Intn(20)))
@@ -82,10 +82,10 @@ func schedCase(rng *rand.Rand, w *Writer, suite string, kind string, canonical i
 		h.submit(d, uint8(1+rng.Intn(200)), rng.Intn(2) == 0, randBytes(rng, n2))
 	} else if canonical == 3 && kind == "rejoin" {
 		// nothing queued: the uplink's handler leaves the buffer entry alone and can collect the join-accept
-	} else if canonical == 3 && kind != "join-copies" {
+	} else if canonical == 3 && kind != "join-copies" && kind != "forged-join" {
 		// exactly one queued message: the first handler's answer carries it, the second handler has nothing to send
 		h.submit(d, uint8(1+rng.Intn(200)), false, randBytes(rng, 1+rng.Intn(20)))
-	} else if kind != "join-copies" && rng.Intn(2) == 0 {
+	} else if kind != "join-copies" && kind != "forged-join" && rng.Intn(2) == 0 {
 		h.submit(d, uint8(1+rng.Intn(200)), rng.Intn(2) == 0, randBytes(rng, 1+rng.Intn(20)))
 		if rng.Intn(2) == 0 {
 			h.submit(d, uint8(1+rng.Intn(200)), rng.Intn(2) == 0, randBytes(rng, 1+rng.Intn(20)))
@@ -116,6 +116,21 @@ func schedCase(rng *rand.Rand, w *Writer, suite string, kind string, canonical i
 		d.lastNonce = nonce
 		f1 = refJoinRequest(d.appkey, d.appeui, d.eui, nonce)
 		f2 = f1
+	case "forged-join":
+		// a genuine join-request and, handled at the same time, one for the same device signed with another key (another
+		// DevNonce): whatever the handlers' order, only the genuine one may have any effect
+		nonce := uint16(rng.Intn(65536))
+		d.lastNonce = nonce
+		f1 = refJoinRequest(d.appkey, d.appeui, d.eui, nonce)
+		wrong := genKey(rng)
+		if hx(wrong) == hx(d.appkey) {
+			wrong = append([]byte{}, d.appkey...)
+			wrong[rng.Intn(16)] ^= 1 << uint(rng.Intn(8))
+		}
+		f2 = refJoinRequest(wrong, d.appeui, d.eui, nonce+1+uint16(rng.Intn(1000)))
+		if rng.Intn(2) == 0 {
+			f1, f2 = f2, f1
+		}
 	}
 	mk := func(raw []byte, gw uint64, ts int64) (server.GatewayPacket, string) {
 		datr := datrs[rng.Intn(len(datrs))]
@@ -175,7 +190,7 @@ func schedCase(rng *rand.Rand, w *Writer, suite string, kind string, canonical i
 				newaddr = binary.LittleEndian.Uint32(dec[6:10])
 			}
 		}
-		if (kind == "join-copies" || kind == "rejoin") && appnonce == "" {
+		if (kind == "join-copies" || kind == "rejoin" || kind == "forged-join") && appnonce == "" {
 			appnonce, newaddr = h.recoverAppNonce(d)
 		}
 		sort.Strings(dl)
@@ -261,7 +276,7 @@ func schedCase(rng *rand.Rand, w *Writer, suite string, kind string, canonical i
 			newaddr = binary.LittleEndian.Uint32(dec[6:10])
 		}
 	}
-	if (kind == "join-copies" || kind == "rejoin") && appnonce == "" {
+	if (kind == "join-copies" || kind == "rejoin" || kind == "forged-join") && appnonce == "" {
 		appnonce, newaddr = h.recoverAppNonce(d)
 	}
 	sort.Strings(dl)
